@@ -26,6 +26,7 @@ import (
 	"math/rand"
 	"net/http"
 	"os"
+	"runtime"
 	"sort"
 	"strconv"
 	"strings"
@@ -102,6 +103,10 @@ type ordRW struct {
 	body    *ordBuf
 	ready   chan struct{}
 	isReady bool
+	// a slow client connection: the first Write whose bytes contain stallOn is held back by onStall
+	stallOn []byte
+	onStall func()
+	stalled bool
 }
 
 func (w *ordRW) Header() http.Header { return w.hdr }
@@ -115,6 +120,15 @@ func (w *ordRW) WriteHeader(code int) {
 }
 func (w *ordRW) Write(p []byte) (int, error) {
 	w.WriteHeader(http.StatusOK)
+	w.mu.Lock()
+	hold := w.stallOn != nil && !w.stalled && bytes.Contains(p, w.stallOn)
+	if hold {
+		w.stalled = true
+	}
+	w.mu.Unlock()
+	if hold && w.onStall != nil {
+		w.onStall()
+	}
 	w.mu.Lock()
 	defer w.mu.Unlock()
 	w.pending = append(w.pending, p...)
@@ -134,7 +148,16 @@ func (w *ordRW) Flush() {
 	}
 }
 
-type ordRT struct{ h http.Handler }
+type ordRT struct {
+	h   http.Handler
+	obs *ordH // when set: remembers the hanging GET (so that the case can cut it) and slows a resumed one down
+}
+
+// ordGet is the client's hanging GET as the in-process transport sees it.
+type ordGet struct {
+	body   *ordBuf
+	cancel context.CancelFunc
+}
 
 func (rt *ordRT) RoundTrip(req *http.Request) (*http.Response, error) {
 	var body []byte
@@ -153,6 +176,16 @@ func (rt *ordRT) RoundTrip(req *http.Request) (*http.Response, error) {
 		sreq.Host = req.URL.Host
 	}
 	w := &ordRW{hdr: http.Header{}, body: newOrdBuf(), ready: make(chan struct{})}
+	if h := rt.obs; h != nil && req.Method == http.MethodGet {
+		h.mu.Lock()
+		h.curGet = &ordGet{w.body, cancel}
+		if req.Header.Get(lastEventIDHeader) != "" && h.stallTag >= 0 && h.c.stall > 0 {
+			// a resumed stream over a slow connection: the frame of the first message sent while the stream was cut takes a while
+			w.stallOn = []byte(fmt.Sprintf(`"vtag":%d}`, h.stallTag))
+			w.onStall = h.holdReplay
+		}
+		h.mu.Unlock()
+	}
 	go func() {
 		defer func() {
 			recover()
@@ -193,6 +226,8 @@ type ordMsg struct {
 	to   int  // fan-out cases: the receiving peer
 	of   int  // fan-out cases: the fan-out (1, 2, …) this message is the per-session copy of; 0 = a directed message
 	lat  int  // fan-out cases: virtual ms a sending middleware adds to this message's send path
+	cut  bool // s2c on a streamable server with an event store: before this message is sent the client's hanging GET is cut (the stream is detached: sends are stored only, until the client resumes with Last-Event-ID)
+	rsm  bool // …: this message is sent the instant the resumed GET begins to write the backlog (the frame of the first message sent while detached takes `stall` ms)
 }
 
 // ordFan is one notifying method that addresses several sessions.
@@ -208,8 +243,9 @@ type ordCase struct {
 	pv   string
 	msgs []ordMsg
 	// fan-out cases (np > 1): ONE Client connected to np servers (dir c2s) or ONE Server with np client sessions (dir s2c)
-	np   int
-	pvs  []string // protocol version per peer
+	stall int // resume scenario: how long (hundreds of scheduler yields, at most) the first replayed frame is held back on the resumed connection
+	np    int
+	pvs   []string // protocol version per peer
 	sub  []bool   // dir s2c: is peer p subscribed to the resource?
 	fans []ordFan
 }
@@ -231,6 +267,9 @@ func (c *ordCase) cfgOp() string {
 		}
 		return fmt.Sprintf("cfg tr=%s dir=%s pv=%s np=%d%s", c.tr, c.dir, strings.Join(c.pvs, ","), c.np, sub)
 	}
+	if c.stall > 0 {
+		return fmt.Sprintf("cfg tr=%s dir=%s pv=%s stall=%d", c.tr, c.dir, c.pv, c.stall)
+	}
 	return fmt.Sprintf("cfg tr=%s dir=%s pv=%s", c.tr, c.dir, c.pv)
 }
 func (f *ordFan) op() string {
@@ -251,6 +290,12 @@ func (m *ordMsg) op(i int) string {
 	}
 	if m.rs != 0 {
 		s += fmt.Sprintf(" rs=%d", m.rs)
+	}
+	if m.cut {
+		s += " cut=1"
+	}
+	if m.rsm {
+		s += " rsm=1"
 	}
 	return s
 }
@@ -287,6 +332,70 @@ type ordH struct {
 	cbres   map[int]string
 	script  func(ctx context.Context, ss *ServerSession)
 	fan     *ordFanState
+	// resume scenario
+	curGet   *ordGet
+	stallTag int
+	resumeCh chan struct{}
+	resumed  bool
+	cutDone  bool
+}
+
+// cutStream cuts the client's hanging GET (a broken connection: the client's read fails, the server's request
+// context ends) after everything sent so far has arrived; message i will be the first one sent while detached.
+func (h *ordH) cutStream(i int) {
+	synctest.Wait()
+	h.mu.Lock()
+	g := h.curGet
+	h.stallTag = i
+	h.cutDone = g != nil
+	h.mu.Unlock()
+	if g != nil {
+		g.body.closeR()
+		g.cancel()
+	}
+	synctest.Wait()
+}
+
+// holdReplay is called by the goroutine that writes the backlog of a resumed stream when it is about to write the
+// frame of the first message sent while the stream was cut.  It lets the script's goroutine send its next message
+// (rsm) and holds the frame back until that message has gone out — or, when its Write is waiting for the replay
+// to end, for `stall` hundred scheduler yields.  (Not a sleep: a goroutine that sleeps while another one waits for
+// a sync.Mutex it holds stops the virtual clock for good.)
+func (h *ordH) holdReplay() {
+	h.mu.Lock()
+	if !h.resumed {
+		h.resumed = true
+		close(h.resumeCh)
+	}
+	tag := -1
+	for i, m := range h.c.msgs {
+		if m.rsm {
+			tag = i
+		}
+	}
+	h.mu.Unlock()
+	for n := 0; n < 100*h.c.stall; n++ {
+		h.mu.Lock()
+		out := false
+		for _, e := range h.evs {
+			if e.id == tag && (e.what == "ret" || e.what == "err" || e.what == "enq" || e.what == "beg") {
+				out = true
+			}
+		}
+		h.mu.Unlock()
+		if out {
+			return
+		}
+		runtime.Gosched()
+	}
+}
+
+// awaitResume parks until the resumed GET begins to write the backlog (or 10 virtual seconds have passed).
+func (h *ordH) awaitResume() {
+	select {
+	case <-h.resumeCh:
+	case <-time.After(10 * time.Second):
+	}
 }
 
 func (h *ordH) log(what string, id int) {
@@ -471,6 +580,12 @@ func (h *ordH) runScript(ctx context.Context, dir string, from int, cs *ClientSe
 		m := h.c.msgs[i]
 		if m.dir != dir || i == h.carrier {
 			continue
+		}
+		if m.cut {
+			h.cutStream(i)
+		}
+		if m.rsm {
+			h.awaitResume()
 		}
 		switch m.kind {
 		case 'n', 'c':
@@ -692,7 +807,7 @@ func ordRunCase(t *testing.T, out *verifOut, id string, c *ordCase) {
 	}
 	defer flush()
 	synctest.Test(t, func(t *testing.T) {
-		h := &ordH{t0: time.Now(), c: c, carrier: -1, mainTag: 0, cbres: map[int]string{}}
+		h := &ordH{t0: time.Now(), c: c, carrier: -1, mainTag: 0, cbres: map[int]string{}, stallTag: -1, resumeCh: make(chan struct{})}
 		h.hookEnq()
 		defer func() { jsonrpc2.VerifHook = nil }()
 		status := "ok"
@@ -756,7 +871,7 @@ func ordRunCase(t *testing.T, out *verifOut, id string, c *ordCase) {
 			ss, ct = s, &IOTransport{Reader: r2, Writer: w1}
 		case "sse":
 			hd := NewSSEHandler(getServer, nil)
-			ct = &SSEClientTransport{Endpoint: url, HTTPClient: &http.Client{Transport: &ordRT{hd}}}
+			ct = &SSEClientTransport{Endpoint: url, HTTPClient: &http.Client{Transport: &ordRT{h: hd}}}
 		case "rw", "rwj":
 			// the application connects a StreamableServerTransport itself and serves HTTP with it (public API)
 			tp := &StreamableServerTransport{SessionID: "verif-raw", jsonResponse: c.tr == "rwj"}
@@ -765,11 +880,11 @@ func ordRunCase(t *testing.T, out *verifOut, id string, c *ordCase) {
 				status = "connect-fail"
 			}
 			ss = s
-			raw = &ordRaw{h: h, hc: &http.Client{Transport: &ordRT{tp}}, url: url}
+			raw = &ordRaw{h: h, hc: &http.Client{Transport: &ordRT{h: tp}}, url: url}
 		case "rh":
 			hd := NewStreamableHTTPHandler(getServer, &StreamableHTTPOptions{})
 			cleanup = append(cleanup, hd.closeAll)
-			raw = &ordRaw{h: h, hc: &http.Client{Transport: &ordRT{hd}}, url: url}
+			raw = &ordRaw{h: h, hc: &http.Client{Transport: &ordRT{h: hd}}, url: url}
 			if c.pv >= protocolVersion20250618 || len(c.msgs)%2 == 0 {
 				raw.pvHdr = c.pv
 			}
@@ -783,7 +898,7 @@ func ordRunCase(t *testing.T, out *verifOut, id string, c *ordCase) {
 			}
 			hd := NewStreamableHTTPHandler(getServer, o)
 			cleanup = append(cleanup, hd.closeAll)
-			ct = &StreamableClientTransport{Endpoint: url, HTTPClient: &http.Client{Transport: &ordRT{hd}}}
+			ct = &StreamableClientTransport{Endpoint: url, HTTPClient: &http.Client{Transport: &ordRT{h: hd, obs: h}}}
 		}
 		var cs *ClientSession
 		if status == "ok" && raw != nil {
@@ -849,6 +964,9 @@ func ordRunCase(t *testing.T, out *verifOut, id string, c *ordCase) {
 			settle := 2 * time.Second // every handler still queued gets the time it needs
 			for _, m := range c.msgs {
 				settle += time.Duration(m.d) * time.Millisecond
+				if m.cut {
+					settle += 5 * time.Second // the client reconnects after 1-2 s
+				}
 			}
 			time.Sleep(settle)
 			synctest.Wait()
@@ -930,6 +1048,20 @@ func ordRunCase(t *testing.T, out *verifOut, id string, c *ordCase) {
 			}
 			if m.rs != 0 {
 				tags = append(tags, "readerstall")
+			}
+			if m.cut {
+				if h.cutDone {
+					tags = append(tags, "stream-cut")
+				} else {
+					tags = append(tags, "stream-cut-missed")
+				}
+			}
+			if m.rsm {
+				if h.resumed {
+					tags = append(tags, "sent-during-replay")
+				} else {
+					tags = append(tags, "replay-not-seen")
+				}
 			}
 			if b, s := per[i]["beg"], per[i]["snd"]; b != "" && s != "" && b[strings.Index(b, "@"):] != s[strings.Index(s, "@"):] {
 				tags = append(tags, "waited")
@@ -1118,6 +1250,37 @@ func ordGen(rng *rand.Rand, tr string, maxLen int) *ordCase {
 		}
 		c.msgs = append(c.msgs, m)
 	}
+	if c.dir == "s2c" && (tr == "she" || tr == "shje") && rng.Intn(2) == 0 {
+		// resume scenario (event store): some notifications arrive; the client's hanging GET is cut; the server goroutine
+		// sends 1-4 notifications while the stream is detached (stored only); the client resumes with Last-Event-ID over a
+		// slow connection (the first replayed frame takes `stall` ms) and the same goroutine sends its next message the
+		// instant the replay begins; then 0-2 more messages
+		c.msgs = c.msgs[:2]
+		c.stall = 50 + rng.Intn(150) // hundreds of scheduler yields the first replayed frame is held back at most
+		s2cNote := func() ordMsg {
+			return ordMsg{dir: "s2c", kind: 'n', meth: []string{"log", "prog"}[rng.Intn(2)], d: dur()}
+		}
+		for k := 1 + rng.Intn(2); k > 0; k-- {
+			c.msgs = append(c.msgs, s2cNote())
+		}
+		first := s2cNote()
+		first.cut = true
+		c.msgs = append(c.msgs, first)
+		for k := rng.Intn(4); k > 0; k-- {
+			c.msgs = append(c.msgs, s2cNote())
+		}
+		next := s2cNote()
+		if rng.Intn(10) < 3 {
+			next = ordMsg{dir: "s2c", kind: []byte{'c', 'g'}[rng.Intn(2)], meth: []string{"lroots", "sample", "elicit", "ping"}[rng.Intn(4)], d: dur()}
+		}
+		next.rsm = true
+		c.msgs = append(c.msgs, next)
+		for k := rng.Intn(3); k > 0; k-- {
+			m := s2cNote()
+			m.gap = gap()
+			c.msgs = append(c.msgs, m)
+		}
+	}
 	if !isNew && rng.Intn(4) == 0 {
 		c.msgs[1].cb = true // the server's `initialized` handler calls back, too
 		if c.msgs[1].d == 0 {
@@ -1167,6 +1330,7 @@ func ordParse(lines []string) (*ordCase, bool) {
 		switch f[0] {
 		case "cfg":
 			c.tr, c.dir, c.pv = kv(f, "tr"), kv(f, "dir"), kv(f, "pv")
+			c.stall, _ = strconv.Atoi(kv(f, "stall"))
 			if np, _ := strconv.Atoi(kv(f, "np")); np > 1 {
 				c.np = np
 				c.pvs = strings.Split(c.pv, ",")
@@ -1198,7 +1362,7 @@ func ordParse(lines []string) (*ordCase, bool) {
 			to, _ := strconv.Atoi(kv(f, "to"))
 			of, _ := strconv.Atoi(kv(f, "of"))
 			lat, _ := strconv.Atoi(kv(f, "lat"))
-			c.msgs = append(c.msgs, ordMsg{dir: kv(f, "dir"), kind: k[0], meth: kv(f, "meth"), d: d, gap: g, cb: kv(f, "cb") == "1", b: b, rs: rs, to: to, of: of, lat: lat})
+			c.msgs = append(c.msgs, ordMsg{dir: kv(f, "dir"), kind: k[0], meth: kv(f, "meth"), d: d, gap: g, cb: kv(f, "cb") == "1", b: b, rs: rs, to: to, of: of, lat: lat, cut: kv(f, "cut") == "1", rsm: kv(f, "rsm") == "1"})
 		}
 	}
 	return c, c.tr != "" && len(c.msgs) > 0
